@@ -451,20 +451,7 @@ func (c *Ctx) ruleR13c(rule string) {
 		c.R.Violation(rule, name+" checker argument", name, c.P.InstrPos(sc), "the checker is not handed the receiver node")
 	}
 	bad := foreignGuards(sc.Block(), func(cd ssax.Cond) bool {
-		// interpreter != nil, or the comma-ok of the type switch on the interpreter field
-		if x, _, isNT := nilTest(cd.Val); isNT {
-			if _, f, ok := fieldLoad(x); ok && f == c.model().NTInterp {
-				return true
-			}
-		}
-		if e, ok := cd.Val.(*ssa.Extract); ok {
-			if ta, ok := e.Tuple.(*ssa.TypeAssert); ok {
-				if _, f, ok := fieldLoad(ta.X); ok && f == c.model().NTInterp {
-					return true
-				}
-			}
-		}
-		return false
+		return c.aboutInterpreterOnly(cd.Val, 0)
 	})
 	if len(bad) > 0 {
 		c.R.Violation(rule, name+" checker guarded", name, c.P.InstrPos(sc), fmt.Sprintf("the checker call is skipped under a condition other than 'the interpreter is a StaticChecker' (%s): on a repeated or partial pass nodes keep stale schemas and errors are not reported", bad[0].Val.String()))
@@ -656,4 +643,69 @@ func (c *Ctx) ruleR13e(rule string) {
 	} else {
 		c.R.Violation(rule, name+" eval", name, c.P.Pos(fn.Pos()), "evaluation does not hand the interpreter exactly this node and return its results")
 	}
+}
+
+// aboutInterpreterOnly: the condition depends on nothing but the node's interpreter field — interpreter != nil, the
+// comma-ok of a type assertion on it, or the result of a library helper that computes exactly such a thing.
+func (c *Ctx) aboutInterpreterOnly(v ssa.Value, depth int) bool {
+	if depth > 4 {
+		return false
+	}
+	interp := c.model().NTInterp
+	if x, _, isNT := nilTest(v); isNT {
+		if _, f, ok := fieldLoad(x); ok && f == interp {
+			return true
+		}
+		return c.aboutInterpreterOnly(x, depth+1)
+	}
+	switch x := v.(type) {
+	case *ssa.Const:
+		return true
+	case *ssa.UnOp:
+		if _, f, ok := fieldLoad(x); ok && f == interp {
+			return true
+		}
+		if x.Op == token.NOT {
+			return c.aboutInterpreterOnly(x.X, depth+1)
+		}
+	case *ssa.Phi:
+		for _, e := range x.Edges {
+			if !c.aboutInterpreterOnly(e, depth+1) {
+				return false
+			}
+		}
+		return true
+	case *ssa.Extract:
+		switch t := x.Tuple.(type) {
+		case *ssa.TypeAssert:
+			if _, f, ok := fieldLoad(t.X); ok && f == interp {
+				return true
+			}
+		case *ssa.Call:
+			h := t.Call.StaticCallee()
+			if h == nil || !c.P.InLib(h) || len(h.Blocks) == 0 {
+				return false
+			}
+			for _, r := range ssax.Returns(h) {
+				if x.Index >= len(r.Results) || !c.aboutInterpreterOnly(r.Results[x.Index], depth+1) {
+					return false
+				}
+			}
+			// and the helper has no effects
+			for _, b := range h.Blocks {
+				for _, in := range b.Instrs {
+					switch in.(type) {
+					case *ssa.Store, *ssa.MapUpdate, *ssa.Call, *ssa.Go, *ssa.Defer:
+						return false
+					}
+				}
+			}
+			return true
+		}
+	case *ssa.TypeAssert:
+		if _, f, ok := fieldLoad(x.X); ok && f == interp {
+			return true
+		}
+	}
+	return false
 }
